@@ -89,8 +89,28 @@ def judge_a(case):
         tags.append("decimal-weights")
     nt = False
     ev = None
+    if case["via"] == "ast-reuse":
+        # ONE parsed AST rendered again and again (generate() twice on one generator, then another generator / the other layout
+        # on the same AST): rendering must leave the AST alone, so the last rendering still partitions exactly
+        prog = M.program("e", M.ret([(M.lit_of(l), w) for l, w in zip(labels, ws)]), splitters=["uid"])
+        try:
+            ast_ = sut.wrappers().parse_source(M.render(prog))
+            G = sut.codegen().PythonCodeGen
+            g1 = G(ast_)
+            g1.generate()
+            g1.generate()
+            G(ast_, expose_experiment_variant_function=True).generate()
+            code = G(ast_).generate()
+            ns = {}
+            exec(compile(code, "<rendered-again>", "exec"), ns)
+            ev = ns["e"]
+        except Exception as e:
+            return {"viol": ["rendering one AST repeatedly failed: %s: %s | %s" % (type(e).__name__, e, M.render(prog))], "tags": tags}
     if case["via"] == "dsl":
         prog = M.program("e", M.ret([(M.lit_of(l), w) for l, w in zip(labels, ws)]), splitters=["uid"])
+        if case.get("noise"):
+            sut.compile_text(case["noise"])  # somebody's rejected text right before (outcome irrelevant)
+            tags.append("after-a-rejected-text")
         import warnings
 
         with warnings.catch_warnings():
@@ -374,6 +394,12 @@ def cases_b(draw):
             "probe_js": draw(st.lists(st.integers(0, GRID), min_size=1, max_size=3))}
 
 
+# texts that are refused half-way through a return statement (after complete groups have been read) or elsewhere
+REJECTED = ['def n { splitters: u return "old_a" weighted 5, "old_b" weighted }', 'def n { splitters: u return "old_a" weighted 5, "old_b" weighted 7, }',
+            'def n { splitters: u if u == 1 { return "x" weighted 1, "y" weighted 2 } else { return "z" weighted 3 ', 'def n { return "a" weighted 1 ;',
+            'def n { splitters: u return "a" weighted 1, "b" weighted 0.5 @']
+
+
 def small_vectors():
     for n in range(1, 5):
         for ws in itertools.product("0123", repeat=n):
@@ -383,6 +409,9 @@ def small_vectors():
             yield {"ws": ws, "ks": _positions(ws, [1, GRID // 2, GRID // 3]), "via": "direct"}
             if n <= 3:
                 yield {"ws": ws, "ks": _positions(ws, []), "via": "dsl"}
+            if n == 3 and ws[0] != ws[2]:
+                yield {"ws": ws, "ks": _positions(ws, []), "via": "ast-reuse"}
+                yield {"ws": ws, "ks": _positions(ws, []), "via": "dsl", "noise": REJECTED[(int(ws[0]) * 4 + int(ws[1]) + int(ws[2])) % len(REJECTED)]}
 
 
 def edge_magnitude_vectors():
